@@ -119,7 +119,7 @@ Record MI (D Imp : list id) (w : world) : Prop := mkMI {
   mi_dlist : forall p d, lists w p d -> In d D -> In p D;
   mi_dup : forall d, In d D -> base <= d /\ (d = rb \/ exists q, In q D /\ lists w1 q d);
   mi_kids : forall c, base <= c -> ~ Reach w r c -> kids_of w c = kids_of w1 c;
-  mi_par : forall c, base <= c -> ~ In c Imp -> parent_in w c = parent_in w1 c;
+  mi_par : forall c, ~ In c Imp -> parent_in w c = parent_in w1 c;
   mi_imp : forall y, In y Imp -> base <= y /\ ~ In y D /\ exists q, In q D /\ lists w1 q y;
   mi_hang : forall c p, base <= c -> par w c p -> base <= p \/ Reach w r p
 }.
@@ -134,7 +134,7 @@ Proof.
   - apply M.
   - intros c Hc Hnr. rewrite kids_of_skel, Ss, <- kids_of_skel. apply M; auto.
     intros Hre. apply Hnr. apply (st_reach _ _ _ _ S). exact Hre.
-  - intros c Hc Hni. rewrite parent_in_skel, Ss, <- parent_in_skel. apply M; auto.
+  - intros c Hni. rewrite parent_in_skel, Ss, <- parent_in_skel. apply M; auto.
   - apply M.
   - intros c p Hc Hp. apply (st_par _ _ _ _ S) in Hp. destruct (mi_hang _ _ _ M _ _ Hc Hp); auto.
     right. apply (st_reach _ _ _ _ S). auto.
@@ -267,7 +267,7 @@ Proof.
   - intros c Hc Hnr. rewrite kids_of_skel. destruct (N.eq_dec c x) as [->|Hcx].
     + rewrite Hskx. rewrite <- (mi_kids _ _ _ M) by auto. unfold kids_of. rewrite Hnx. reflexivity.
     + rewrite Hsk by auto. rewrite <- kids_of_skel. apply M; auto. intros Hre. apply Hnr. apply Hre'. auto.
-  - intros c Hc Hni. assert (c <> x) by (intros ->; apply Hni; left; auto).
+  - intros c Hni. assert (c <> x) by (intros ->; apply Hni; left; auto).
     rewrite parent_in_skel, Hsk, <- parent_in_skel by auto. apply M; auto. intros Hin. apply Hni. right. auto.
   - intros y [<-|Hy].
     + split; auto. split; auto. exists pb. auto.
@@ -324,7 +324,7 @@ Proof.
   - apply M.
   - intros c Hc Hnr. assert (c <> pa) by (intros ->; apply Hnr; auto).
     rewrite kids_of_skel, Hsk, <- kids_of_skel by auto. apply M; auto.
-  - intros c Hc Hni. rewrite parent_in_skel. destruct (N.eq_dec c pa) as [->|Hcp].
+  - intros c Hni. rewrite parent_in_skel. destruct (N.eq_dec c pa) as [->|Hcp].
     + rewrite Hskp. rewrite <- (mi_par _ _ _ M) by auto. unfold parent_in. rewrite Hnpa. reflexivity.
     + rewrite Hsk, <- parent_in_skel by auto. apply M; auto.
   - apply M.
